@@ -10,6 +10,9 @@ package main
 //   sched   — a second binary built from an INSTRUMENTED copy of memmap.go / mem/file.go
 //             (c04_instrument.go) whose lock operations are yield points of a cooperative
 //             scheduler: schedules are enumerated (DFS) or sampled, and are replayable.
+//             Two modes: depth-0 (switch only with no lock held) and lock-aware (every lock
+//             acquisition is a switching point, acquisitions are try-locks under the control of the
+//             scheduler, blocked goroutines, deadlock detection, preemption-bounded DFS).
 // Go-side oracles (no model involved): two winners among concurrent Mkdir / O_CREATE|O_EXCL calls
 // of one name, Mkdir / O_CREATE returning not-exist, torn reads, results changing on unrelated
 // paths.  At the end the harness runs ../ocaml/modelrun on its own histories and turns every
@@ -43,7 +46,9 @@ type c04Prog struct {
 	Torn    []string // when set: every HReadAt result of the concurrent phase must be one of these
 	// at most this many distinct histories of the program are emitted (0: 40)
 	MaxDistinct int
-	solo    [][]string
+	// scheduled cases read back from a case file: explored / to be replayed in lock-aware mode
+	LockAware bool
+	solo      [][]string
 	soloFin []string
 }
 
@@ -60,6 +65,10 @@ type c04Hist struct {
 	Final    string
 	Hung     bool
 	Sched    string
+	// lock-aware mode of the cooperative scheduler (header token yield=locks)
+	LockAware bool
+	// the scheduler found goroutines alive and none enabled: labels of the pending acquisitions
+	Deadlock string
 }
 
 func c04Item(slot int, format string, a ...any) string {
@@ -91,6 +100,9 @@ var c04InfoOps = map[string]bool{"FName": true, "FSize": true, "FMode": true, "F
 
 func c04IsSlotOp(name string) bool { return handleOps[name] || c04InfoOps[name] }
 
+// set by the scheduled binary (c04_sched.go): its own rendering of some handle operations
+var c04HandleHook func(f afero.File, name string, a []string) (string, bool)
+
 // c04Compile pre-parses an item line so that nothing but the call itself (and the canonical
 // rendering of what it returned) happens between the two stamps.
 func c04Compile(item string) c04Op {
@@ -107,6 +119,11 @@ func c04Compile(item string) c04Op {
 			f, ok := sl.files[h]
 			if !ok {
 				return "noslot"
+			}
+			if c04HandleHook != nil {
+				if res, ok := c04HandleHook(f, name, rest); ok {
+					return res
+				}
 			}
 			return execHandle(f, name, rest)
 		}
@@ -261,7 +278,7 @@ func (r *c04Run) finish(h *c04Hist) {
 		}
 	}
 	switch {
-	case h.Hung:
+	case h.Hung || h.Deadlock != "":
 		h.Final = "hung"
 	case atomic.LoadInt32(&r.stop) != 0:
 		h.Final = "skip" // after a recovered panic the final state is not inspected (a mutex may be held)
@@ -358,6 +375,9 @@ type c04Emitted struct {
 	hist  *c04Hist
 	count int
 	mode  string
+	// the verdict line of the implementation side: "hung", "linearizable", or — once the model
+	// runner has refused the history — the runner's own answer (see c04Finish)
+	verdict string
 }
 
 type c04State struct {
@@ -372,6 +392,15 @@ func (s *c04State) emit(id string, p *c04Prog, h *c04Hist, mode string, count in
 	hd := fmt.Sprintf("hcase %s %d %s", id, len(p.Threads), mode)
 	if h.Sched != "" {
 		hd += " sched=" + h.Sched
+		if h.LockAware {
+			hd += " yield=locks"
+		}
+		if h.Deadlock != "" {
+			hd += " deadlock=" + h.Deadlock
+		}
+		if p.Focus != "" && p.Focus != "replay" && p.Focus != "sched" {
+			hd += " focus=" + p.Focus
+		}
 	}
 	c.Case("%s", hd)
 	for i, it := range p.Setup {
@@ -383,13 +412,11 @@ func (s *c04State) emit(id string, p *c04Prog, h *c04Hist, mode string, count in
 	}
 	c.Case("f %s", h.Final)
 	c.Case("end")
-	if h.Hung {
-		c.Impl("%s hung", id)
-	} else {
-		c.Impl("%s linearizable", id)
-	}
 	c.NCases++
-	e := &c04Emitted{id: id, prog: p, hist: h, count: count, mode: mode}
+	e := &c04Emitted{id: id, prog: p, hist: h, count: count, mode: mode, verdict: "linearizable"}
+	if h.Hung || h.Deadlock != "" {
+		e.verdict = "hung"
+	}
 	s.emitted = append(s.emitted, e)
 	s.byID[id] = e
 }
@@ -528,9 +555,12 @@ func c04SnapParts(snap string) map[string]string {
 
 func (s *c04State) oracles(e *c04Emitted) {
 	c, id, p, h := s.c, e.id, e.prog, e.hist
-	if h.Hung {
+	if h.Hung || h.Deadlock != "" {
 		var ks []string
 		sig := "deadlock"
+		if h.Deadlock != "" {
+			sig = "deadlock:" + h.Deadlock // found by the lock-aware scheduler: every live goroutine blocked
+		}
 		for _, cl := range h.Calls {
 			ks = append(ks, c04Kind(cl.Item))
 			if cl.Res == "panic" {
@@ -539,7 +569,11 @@ func (s *c04State) oracles(e *c04Emitted) {
 				sig = "deadlock:after-panic"
 			}
 		}
-		c.Oracle("FAIL %s %s a call did not return within 3s; calls that did return: %s", id, sig, c04Sig(ks))
+		if h.Deadlock != "" {
+			c.Oracle("FAIL %s %s under the cooperative scheduler (schedule %s) every live goroutine waits for a lock held by another one; pending acquisitions %s; calls that did return: %s", id, sig, h.Sched, h.Deadlock, c04Sig(ks))
+		} else {
+			c.Oracle("FAIL %s %s a call did not return within 3s; calls that did return: %s", id, sig, c04Sig(ks))
+		}
 		c.Add("fail.deadlock", e.count)
 		return
 	}
@@ -748,9 +782,13 @@ func (s *c04State) judge() {
 				}
 			}
 		}
+		e.verdict = strings.Join(t[2:], " ")
 		sig := "nonlin:" + c04Culprits(ks)
 		if strings.HasPrefix(e.prog.Focus, "preempt-") {
 			sig += "@" + e.prog.Focus // which window of real preemption (c04PreemptProgs)
+		}
+		if h.LockAware && strings.HasPrefix(e.prog.Focus, "window-") {
+			sig += "@" + e.prog.Focus // which window program of the lock-aware cooperative scheduler
 		}
 		coreKinds := c04Sig(ks)
 		c.Oracle("FAIL %s %s no order of the %d calls respects real time and reproduces the results and the final state on the sequential model (%s); core kinds %s; focus=%s mode=%s seen %d times",
@@ -838,7 +876,16 @@ func c04Finish(s *c04State, judge bool) {
 	}
 	if judge {
 		s.judge()
-	} else {
+	}
+	// The verdict line.  A history the model runner refuses is reported through the oracle (FAIL
+	// <id> nonlin:... with the history as the failing input); its verdict line repeats the
+	// runner's answer, so that the refusal is not counted a second time as a divergence between
+	// implementation and model (the setup steps stay compared line by line).  Without a model
+	// runner every verdict line says "linearizable" and a refusal shows up in that comparison.
+	for _, e := range s.emitted {
+		c.Impl("%s %s", e.id, e.verdict)
+	}
+	if !judge {
 		// child: multiplicities for the parent
 		var b strings.Builder
 		for _, e := range s.emitted {
@@ -940,8 +987,13 @@ func c04ParseCase(lines []string) (string, *c04Prog, string) {
 	p.Threads = make([][]string, n)
 	sched := ""
 	for _, f := range hd[3:] {
-		if strings.HasPrefix(f, "sched=") {
+		switch {
+		case strings.HasPrefix(f, "sched="):
 			sched = f[6:]
+		case f == "yield=locks":
+			p.LockAware = true
+		case strings.HasPrefix(f, "focus="):
+			p.Focus = f[6:]
 		}
 	}
 	type ci struct {
